@@ -77,6 +77,15 @@ class Gen:
         if c < 0.70: self.count('^'); return '(%s ^ %s)' % (a, self.val(d - 1))
         if c < 0.76: self.count('<<'); return '(((%s) & %s) << (%s & 7))' % (a, self.mask(), self.val(d - 1))
         if c < 0.83: self.count('>>'); return '(%s >> (%s & 15))' % (a, self.val(d - 1))
+        if c < 0.845:
+            # the same non-associative operator nested directly as the RIGHT operand (parentheses are essential)
+            b, k = self.val(d - 1), self.val(d - 1)
+            form = r.randrange(5); self.count('nest_right')
+            if form == 0: return '((%s - (%s - %s)) & %s)' % (a, b, k, self.mask())
+            if form == 1: return '(%s // ((%s | 256) // ((%s & 15) + 1)))' % (a, b, k)
+            if form == 2: return '(%s %% ((((%s & 1023) * 2) + 1) %% 4))' % (a, b)
+            if form == 3: return '(%s >> ((%s & 255) >> (%s & 7)))' % (a, b, k)
+            return '((%s & %s) << ((%s & 1) << (%s & 1)))' % (a, self.mask(), b, k)
         if c < 0.86: self.count('~'); return '(~%s & %s)' % (a, self.mask())
         if c < 0.88: self.count('neg'); return '((-%s) & %s)' % (a, self.mask())
         if c < 0.93: self.count('cmp_value'); return '(%s)' % self.cmp(d - 1)
@@ -95,7 +104,9 @@ class Gen:
         if d <= 0 or c < 0.45: return self.cmp(max(d, 0)) if r.random() < 0.75 else self.val(max(d, 0))
         if c < 0.62: self.count('and'); return '(%s and %s)' % (self.cond(d - 1), self.cond(d - 1))
         if c < 0.78: self.count('or'); return '(%s or %s)' % (self.cond(d - 1), self.cond(d - 1))
-        if c < 0.86: self.count('and3'); return '(%s and %s and %s)' % (self.cond(d - 1), self.cond(d - 1), self.cond(d - 1))
+        if c < 0.86:
+            op = r.choice(['and', 'or']); self.count(op + '3')
+            return '(%s %s %s %s %s)' % (self.cond(d - 1), op, self.cond(d - 1), op, self.cond(d - 1))
         if c < 0.93: self.count('not'); return '(not %s)' % self.cond(d - 1)
         return '(%s)' % self.cmp(d - 1)
 
